@@ -35,6 +35,7 @@ type Version struct {
 	AbortAfter  int    `json:"abort_after,omitempty"` // >0: close the connection after this many body bytes
 	Bare416     bool   `json:"bare_416,omitempty"`    // a 416 carries none of Headers (freshness belongs to the representation, not to the refusal)
 	SlowMs      int    `json:"slow_ms,omitempty"`     // >0: pause this long in the middle of the body (a transfer that takes time)
+	Raw304      []HV   `json:"raw_304,omitempty"`     // a 304 is written by hand and carries these extra fields (net/http strips Content-Length/Content-Type from its own 304s; real origins send them)
 }
 
 // Site serves resources by path; each path has a current Version that the harness can bump.
@@ -139,6 +140,24 @@ func (s *Site) Handler() Handler {
 			}
 			if notMod {
 				e.Status = 304
+				if hj, ok := w.(http.Hijacker); ok && len(v.Raw304) > 0 {
+					if conn, bw, err := hj.Hijack(); err == nil {
+						e.Commit()
+						fmt.Fprintf(bw, "HTTP/1.1 304 Not Modified\r\nDate: %s\r\n", time.Now().UTC().Format(http.TimeFormat))
+						for _, k := range []string{"Etag", "Last-Modified"} {
+							if vs := h[k]; len(vs) > 0 {
+								fmt.Fprintf(bw, "%s: %s\r\n", k, vs[0])
+							}
+						}
+						for _, hv := range v.Raw304 {
+							fmt.Fprintf(bw, "%s: %s\r\n", hv.K, hv.V)
+						}
+						fmt.Fprintf(bw, "Connection: close\r\n\r\n")
+						bw.Flush()
+						conn.Close()
+						return
+					}
+				}
 				w.WriteHeader(304)
 				return
 			}
